@@ -131,6 +131,9 @@ class HoppingParams:
 		ma_len = len(ma)
 		if ma_len == 0: # TODO: or rather > 1?
 			raise ValueError("Mobile Allocation is empty")
+		# HSN is a 6-bit value (3GPP TS 45.002, section 6.2.3)
+		if hsn not in range(64):
+			raise ValueError("HSN %d is out of range" % hsn)
 
 		self.hsn = hsn
 		self.maio = maio
